@@ -295,6 +295,18 @@ def defsNiceB (defs : List LayerDef) : Bool :=
       | none => true
     | _ => true
 
+/-- The whole run of the repaired model with the global stack of open span ends kept by stack
+discipline (`ghostStep`): true iff no End ever finds a wrong top and the stack is empty at the end. -/
+def runGhost (defs : List LayerDef) (n : Nat) : Nat → MSt → List Nat → Bool
+  | 0, _, _ => false
+  | f + 1, st, G =>
+    match stepM defs n st with
+    | .done _ => G.isEmpty
+    | .more evs st' =>
+      match ghostStep st evs G with
+      | none => false
+      | some G' => runGhost defs n f st' G'
+
 /-- `run mmerge`: the multi-layer merge model against the real event stream. -/
 def runMMerge (s : St) : String :=
   let n := s.src.length
@@ -304,7 +316,7 @@ def runMMerge (s : St) : String :=
   let corr := if decide (m = s.evs) then "ok" else "DIFF"
   let wf := judgeEvents n s.evs
   let maxd := defs.foldl (fun a d => max a d.depth) 0
-  s!"{s.id} kind=N corr={corr} defsin={if defsIn n defs then 1 else 0} refsup={if refsUp defs then 1 else 0} fin={if fin then 1 else 0} wf={if wf then "ok" else "FAIL"} nlayers={defs.length} maxlayerdepth={maxd} defsnice={if defsNiceB defs then 1 else 0} static={if noInj defs then 1 else 0} crossnice={if crossNice defs then 1 else 0} crosslam={if crossLam defs then 1 else 0} staticnice={if staticNice defs then 1 else 0} closure={if closureNodup defs s.top then 1 else 0} injtie={if injTieOk defs then 1 else 0} dynnice={if dynNice defs s.top then 1 else 0} ncaps={totalCaps defs} depth={maxDepth s.evs} ir={s.irTotal} irreal={s.irReal} irbad={s.irBad} err={s.err}"
+  s!"{s.id} kind=N corr={corr} defsin={if defsIn n defs then 1 else 0} refsup={if refsUp defs then 1 else 0} fin={if fin then 1 else 0} wf={if wf then "ok" else "FAIL"} nlayers={defs.length} maxlayerdepth={maxd} defsnice={if defsNiceB defs then 1 else 0} static={if noInj defs then 1 else 0} crossnice={if crossNice defs then 1 else 0} crosslam={if crossLam defs then 1 else 0} staticnice={if staticNice defs then 1 else 0} defsniced={if defsNiceD defs then 1 else 0} closure={if closureNodup defs s.top then 1 else 0} injtie={if injTieOkP defs then 1 else 0} dynnice={if dynNice defs s.top then 1 else 0} ghost={if runGhost defs n (sumW (layerW defs) (initLayersR defs s.top) + 1) { layers := initLayersR defs s.top } [] then 1 else 0} ncaps={totalCaps defs} depth={maxDepth s.evs} ir={s.irTotal} irreal={s.irReal} irbad={s.irBad} err={s.err}"
 
 /-- `run merge`: the single-layer merge model against the real event stream. -/
 def runMerge (s : St) : String :=
